@@ -276,60 +276,88 @@ def decodeLoop : Nat → St → M (Nat × St)
       if n > 0 then decodeLoop fuel s' else pure (w, s')
     else pure (w, s)
 
-/-- `retry:` … of `Parser.rune`; `bq` is the local `bquotes`. -/
-def runeLoop : Nat → Nat → St → M St
-  | 0, _, _ => throw .fuel
-  | fuel + 1, bq, s0 => do
-    -- if p.bsp >= uint(len(p.bs)) && p.fill() == 0 { … return runeEOF }
-    let (atEOF, s) ←
-      if s0.front.isEmpty then (do let (n, s') ← s0.fill; pure (n == 0, s')) else pure (false, s0)
-    if atEOF then
-      let s := if s.blen == 0 then { s with bsp := 1 } else s
-      pure { s with r := runeEOF, w := 1 }
-    else
+/-- outcome of one pass through the body of `rune` after the `retry:` label -/
+inductive Step where
+  | done (s : St)                -- `return p.r`
+  | retry (bq : Nat) (s : St)    -- `goto retry` with the local `bquotes = bq`
+
+/-- the common end of the ASCII branch: `lastBquoteEsc`, literal buffer, `p.w, p.r = 1, rune(b)` -/
+def runeTail (b : Byte) (bq : Nat) (s : St) : St :=
+  let s := if b == 96 then { s with lastBqEsc := bq } else s
+  let s := s.litPush [b]
+  { s with w := 1, r := b.toNat }
+
+/-- after the escaped-newline tests of `case '\\'`: `p.readEOF = false` and the backquote test,
+    which reads `p.bs[p.bsp]` without `fill` -/
+def runeAfterEsc (b : Byte) (bq : Nat) (s : St) : Step :=
+  let s := { s with readEOF := false }
+  match s.front with
+  | c :: _ =>
+    if s.openBq > 0 && ((bq < s.openBq && bquoteEscaped c) || (bq < s.openBqDbl && c == 34)) then
+      .retry (bq + 1) { s with col := s.col + 1 }
+    else .done (runeTail b bq s)
+  | [] => .done (runeTail b bq s)
+
+/-- `case '\\'` (the backslash has been consumed) -/
+def runeBackslash (b : Byte) (bq : Nat) (s : St) : M Step :=
+  if s.r == 92 then pure (runeAfterEsc b bq s)
+  else do
+    let (pk, s) ← s.peek
+    if pk == 10 then
+      pure (.done { s.advance with w := 1, r := escNewl })
+    else do
+      let (p1, p2, s) ← s.peekTwo
+      if p1 == 13 && p2 == 10 then
+        pure (.done { (s.advanceN 2) with col := s.col + 1, w := 2, r := escNewl })
+      else pure (runeAfterEsc b bq s)
+
+/-- `if b := p.bs[p.bsp]; b < utf8.RuneSelf { p.bsp++; switch b {…} … }` (b not yet consumed) -/
+def runeAscii (b : Byte) (bq : Nat) (s : St) : M Step :=
+  let s := s.advance
+  if b == 0 then pure (.retry bq { s with col := s.col + 1 })
+  else if b == 13 then do
+    let (pk, s) ← s.peek
+    if pk == 10 then pure (.retry bq { s with col := s.col + 1 })
+    else pure (.done (runeTail b bq s))
+  else if b == 92 then runeBackslash b bq s
+  else pure (.done (runeTail b bq s))
+
+/-- the `decodeRune:` part of `rune` -/
+def runeDecode (s : St) : M St := do
+  let (w, s) ← decodeLoop 4 s
+  let s := s.litPush (s.front.take w)
+  let s := s.advanceN w
+  let s := if s.r == runeError && w == 1 then
+      let (o, l, c) := s.nextPos
+      s.errPass (.utf8 o l c)
+    else s
+  pure { s with w }
+
+/-- `return runeEOF` branch -/
+def runeAtEOF (s : St) : St :=
+  let s := if s.blen == 0 then { s with bsp := 1 } else s
+  { s with r := runeEOF, w := 1 }
+
+/-- one pass from `retry:` -/
+def runeStep (bq : Nat) (s0 : St) : M Step := do
+  -- if p.bsp >= uint(len(p.bs)) && p.fill() == 0 { … return runeEOF }
+  let (atEOF, s) ←
+    if s0.front.isEmpty then (do let (n, s') ← s0.fill; pure (n == 0, s')) else pure (false, s0)
+  if atEOF then pure (.done (runeAtEOF s))
+  else
     match s.front with
     | [] => throw (.oob 1)                            -- p.bs[p.bsp]
     | b :: _ =>
-      if b.toNat < 0x80 then
-        let s := s.advance
-        let tail (s : St) : M St :=
-          let s := if b == 96 then { s with lastBqEsc := bq } else s
-          let s := s.litPush [b]
-          pure { s with w := 1, r := b.toNat }
-        if b == 0 then
-          runeLoop fuel bq { s with col := s.col + 1 }
-        else if b == 13 then do
-          let (pk, s) ← s.peek
-          if pk == 10 then runeLoop fuel bq { s with col := s.col + 1 } else tail s
-        else if b == 92 then do
-          let afterEsc (s : St) : M St :=
-            let s := { s with readEOF := false }
-            match s.front with
-            | c :: _ =>
-              if s.openBq > 0 && ((bq < s.openBq && bquoteEscaped c) || (bq < s.openBqDbl && c == 34)) then
-                runeLoop fuel (bq + 1) { s with col := s.col + 1 }
-              else tail s
-            | [] => tail s
-          if s.r == 92 then afterEsc s
-          else do
-            let (pk, s) ← s.peek
-            if pk == 10 then
-              pure { s.advance with w := 1, r := escNewl }
-            else do
-              let (p1, p2, s) ← s.peekTwo
-              if p1 == 13 && p2 == 10 then
-                pure { (s.advanceN 2) with col := s.col + 1, w := 2, r := escNewl }
-              else afterEsc s
-        else tail s
-      else do
-        let (w, s) ← decodeLoop 4 s
-        let s := s.litPush (s.front.take w)
-        let s := s.advanceN w
-        let s := if s.r == runeError && w == 1 then
-            let (o, l, c) := s.nextPos
-            s.errPass (.utf8 o l c)
-          else s
-        pure { s with w }
+      if b.toNat < 0x80 then runeAscii b bq s
+      else do let s ← runeDecode s; pure (.done s)
+
+/-- `retry:` … of `Parser.rune`; `bq` is the local `bquotes`. -/
+def runeLoop : Nat → Nat → St → M St
+  | 0, _, _ => throw .fuel
+  | fuel + 1, bq, s => do
+    match ← runeStep bq s with
+    | .done s => pure s
+    | .retry bq s => runeLoop fuel bq s
 
 /-- `Parser.rune`; the returned rune is the new `p.r`. -/
 def rune (s : St) : M (Nat × St) := do
